@@ -115,8 +115,19 @@ def run(fx, R, d):
                 continue
             rl, rn, rc, rx, ry = st.ret
             cond_true = all(cc[2] for cc in st.cond)
-            R.check(rl == S('parameters.longitude0') and rn == n and rc == c and rx == S('parameters.x0'), 'W1', 'secant:aggregate-order/%s' % ('generic' if cond_true else 'polar'),
-                    'returned aggregate is (%s, %s, %s, %s, ..), expected (longitude0, n, c, x0, ys)' % (rl, rn, rc, rx), 'aggregate = (longitude0, n, c, xs=x0, ys)', loc_s, 'E-SIB')
+            exp_ = (S('parameters.longitude0'), n, c, S('parameters.x0'))
+            got_ = (rl, rn, rc, rx)
+            misplaced = [(i_, j_) for i_ in range(4) for j_ in range(4) if i_ != j_ and got_[i_] == exp_[j_]]
+            winst = 'secant:aggregate-order/%s' % ('generic' if cond_true else 'polar')
+            if got_ == exp_:
+                R.holds('W1', winst, 'aggregate = (longitude0, n, c, xs=x0, ys)', loc_s, 'E-SIB')
+            elif misplaced:
+                names_ = ('longitude0', 'n', 'c', 'xs')
+                R.violated('W1', winst, 'the returned aggregate carries %s in the slot of %s: (%s, %s, %s, %s, ..), expected (longitude0, n, c, x0, ys)' % (
+                    names_[misplaced[0][1]], names_[misplaced[0][0]], rl, rn, rc, rx), loc_s, 'E-SIB')
+            else:
+                R.undecided('W1', winst, 'a slot of the returned aggregate is neither the parameter nor the local of that name (%s); the values are judged by A2/A3' % (
+                    [str(g_)[:60] for g_, e__ in zip(got_, exp_) if g_ != e__],))
             if cond_true:
                 # the origin (latitude0, longitude0) goes through the forward map to ys - c exp(-n L(latitude0; e of the ellipsoid)); an
                 # `isolat0` local, when there is one, is replaced by its definition so that the rule does not depend on how ys is spelled
